@@ -170,9 +170,14 @@ def build(targets=None, jobs=16) -> BuildResult:
         br.make_cmd = f"cd {COQ} && timeout 1500 make -k -j{jobs} {vo}"
         rc, out = sh(br.make_cmd, timeout=1600)
         br.make_out = out
-        # which failed?
+        # which are up to date now?  (a stale .vo of a file whose dependency failed does
+        # not count: ask make which targets it would still have to build)
+        stale = set()
+        if rc != 0:
+            _, dry = sh(f"cd {COQ} && make -k -n {vo}", timeout=600)
+            stale = set(re.findall(r"[A-Za-z_/0-9]+\.v\b", dry))
         for f in want:
-            if os.path.exists(os.path.join(COQ, f[:-2] + ".vo")) and _fresh(f):
+            if os.path.exists(os.path.join(COQ, f[:-2] + ".vo")) and _fresh(f) and f not in stale:
                 br.built_vo.add(f)
         if rc != 0:
             for m in re.finditer(r'File "\./([^"]+)", line (\d+), characters [\d-]+:\n((?:.*\n){1,12}?)(?=\n|make|File|COQC)', out):
